@@ -76,6 +76,11 @@ func Defects(t M) []Mutation {
 		add("annotations-too-large@"+level, p, "set", M{"big": strings.Repeat("x", 256*1024)}, inv)
 		add("annotations-at-size-limit@"+level, p, "set", M{"big": strings.Repeat("x", 256*1024-3)}, val)
 		add("annotation-value-not-string@"+level, p, "set", M{"k": L{"x"}}, inv)
+		// a malformed key together with a value that is not a string (the schema's key pattern does
+		// not see an empty or newline-only key)
+		for _, bad := range []M{{"": int64(1)}, {"\n": true}, {"": nil}, {"\n\n": M{"x": "y"}}, {"a b": L{}}, {"": L{"x"}}} {
+			add("annotation-key-and-value-malformed@"+level, p, "set", bad, inv)
+		}
 		add("annotations-empty-object@"+level, p, "set", M{}, val)
 	}
 	_, hasAnn := t["annotations"]
